@@ -82,8 +82,8 @@ def materialise(d, torch, counter):
         if v == ("L",):
             i = counter[0]
             counter[0] += 1
-            kind = i % 3
-            out[k] = torch.tensor([float(i)]) if kind == 0 else ((i, "x") if kind == 1 else [i])
+            kind = i % 4
+            out[k] = torch.tensor([float(i)]) if kind == 0 else ((i, "x") if kind == 1 else ([i] if kind == 2 else torch.zeros(0, 3)))  # incl. a tensor with zero elements
         else:
             out[k] = materialise(v, torch, counter)
     return out
@@ -144,6 +144,7 @@ def values(budget, depth):
     if budget == 1:
         yield ("T",)
         yield ("G",)  # tensor that requires grad (e.g. an nn.Parameter held by a module)
+        yield ("N",)  # non-contiguous tensor (a transposed view of a buffer)
         yield ("S",)
     for kind in ("D", "U", "L", "M"):
         if kind == "M" and depth >= 3:
@@ -176,8 +177,11 @@ def module_specs(nodes):
 
 def build_value(spec, torch, OptimizerModule, ctr, fill):
     k = spec[0]
-    if k in ("T", "G"):
+    if k in ("T", "G", "N"):
         ctr[0] += 1
+        if k == "N":
+            base = torch.arange(6, dtype=torch.float32).reshape(2, 3) + (100.0 * ctr[0] if fill else 0.0)
+            return (base if fill else torch.zeros(2, 3)).t()  # shape (3, 2), strides (1, 3)
         t = torch.full((2,), float(ctr[0]) if fill else 0.0)
         if k == "G":
             t.requires_grad_(True)
@@ -210,6 +214,57 @@ def walk_tensors(o, OptimizerModule, torch, path=()):
     elif isinstance(o, (list, tuple)):
         for i, v in enumerate(o):
             yield from walk_tensors(v, OptimizerModule, torch, path + (i,))
+
+
+def check_shared_modules(torch, OptimizerModule):
+    """a sub-module reachable through several paths (two attributes, a list element, a dict value) - not a cycle: the state
+    dict must contain every reachable tensor under every path, and loading into a structurally equal module whose
+    sub-modules are separate objects must set all of them."""
+    out = []
+
+    def leaf(v):
+        m = OptimizerModule()
+        m.w = torch.full((2,), v)
+        m.pair = (torch.full((1,), v + 0.5), torch.full((1,), v + 0.25))
+        return m
+
+    for variant in range(4):
+        src = OptimizerModule()
+        shared = leaf(3.0)
+        if variant == 0:
+            src.a, src.b = shared, shared
+        elif variant == 1:
+            src.a, src.lst = shared, [shared, torch.full((2,), 9.0)]
+        elif variant == 2:
+            src.d = {"x": shared, "y": shared}
+        else:
+            mid = OptimizerModule()
+            mid.inner = shared
+            src.a, src.mid = shared, mid
+        dst = OptimizerModule()
+        if variant == 0:
+            dst.a, dst.b = leaf(0.0), leaf(0.0)
+        elif variant == 1:
+            dst.a, dst.lst = leaf(0.0), [leaf(0.0), torch.zeros(2)]
+        elif variant == 2:
+            dst.d = {"x": leaf(0.0), "y": leaf(0.0)}
+        else:
+            mid = OptimizerModule()
+            mid.inner = leaf(0.0)
+            dst.a, dst.mid = leaf(0.0), mid
+        sd = src.state_dict()
+        n_paths = len(dict(walk_tensors(src, OptimizerModule, torch)))
+        n_sd = len(dict(walk_tensors(sd, OptimizerModule, torch)))
+        if n_sd != n_paths:
+            out.append((variant, f"shared sub-module (variant {variant}): state_dict() holds {n_sd} tensors, {n_paths} are reachable through the module's attributes"))
+            continue
+        dst.load_state_dict(sd)
+        want = dict(walk_tensors(src, OptimizerModule, torch))
+        got = dict(walk_tensors(dst, OptimizerModule, torch))
+        bad = [p for p in want if p not in got or not torch.equal(got[p], want[p])]
+        if bad:
+            out.append((variant, f"shared sub-module (variant {variant}): tensors at {bad[:3]} were not loaded"))
+    return out
 
 
 def check_module(spec, torch, OptimizerModule, via_checkpoint):
@@ -268,6 +323,7 @@ def work(tier, seed):
         for ch in common.chunks(list(range(len(sh))), max(1, len(sh) // 12)):
             units.append({"part": "flat", "edges": e, "shape_ids": ch, "nkeys": len(keys)})
     units.append({"part": "chains"})
+    units.append({"part": "shared"})
     N = 5 if tier == "quick" else 6
     specs = list(module_specs(N))
     for ch in common.chunks(list(range(len(specs))), max(50, len(specs) // 24)):
@@ -311,6 +367,12 @@ def run_unit(unit):
                 break
         if sh:
             res["samples"].append({"edges": unit["edges"], "example": repr(materialise(next(assign(sh[unit["shape_ids"][0]], keys)), torch, [0]))[:200]})
+    elif unit["part"] == "shared":
+        for variant, m in check_shared_modules(torch, OptimizerModule):
+            rec({"part": "shared", "variant": variant}, [m], True, common.h64("shared", variant))
+        res["evals"] += 4
+        res["transitions"] += 4
+        res["stats"]["shared_module_graphs"] = 4
     elif unit["part"] == "chains":
         for depth in range(1, 7):
             for ks in itertools.product(["a", "", "0", 0, '"]'], repeat=depth) if depth <= 4 else itertools.product(["", 0, '"]'], repeat=depth):
@@ -334,7 +396,7 @@ def run_unit(unit):
                 except Exception as e:
                     msgs = [f"raised {type(e).__name__}: {str(e)[:120]}"]
                 res["stats"]["module_graphs"] += 1
-                rec({"part": "mod", "spec": spec, "via_checkpoint": via}, msgs, repr(spec).count("'T'") + repr(spec).count("'G'") >= 2, common.h64(repr(spec), via))
+                rec({"part": "mod", "spec": spec, "via_checkpoint": via}, msgs, repr(spec).count("'T'") + repr(spec).count("'G'") + repr(spec).count("'N'") >= 2, common.h64(repr(spec), via))
             if len(res["violations"]) > 20:
                 break
         res["samples"].append({"module_spec": repr(specs[unit["ids"][len(unit["ids"]) // 2]])})
@@ -366,6 +428,8 @@ def replay(case):
     from distributed_shampoo.utils.shampoo_checkpoint_utils import flatten, unflatten
     from optimizer_modules import OptimizerModule
 
+    if case["part"] == "shared":
+        return [m for v, m in check_shared_modules(torch, OptimizerModule) if v == case["variant"]]
     if case["part"] == "flat":
         d = materialise(decode(case["proto"]), torch, [0])
         try:
